@@ -207,6 +207,45 @@ func ruleOnce(c *Ctx) {
 			})
 		}
 		if cOK && dOK {
+			// Client state is modified only by the Start that launches: every store
+			// to a field of the Client itself (not of its config) in Start lies
+			// behind the once-flag's unset edge. A store in front of it is repeated
+			// by a later Start that is refused, and overwrites what Kill needs to
+			// clean up after the first one (e.g. the socket directory).
+			for _, n := range g.Nodes {
+				as, ok := n.Ast.(*ast.AssignStmt)
+				if !ok {
+					continue
+				}
+				for _, l := range as.Lhs {
+					base := ast.Unparen(l)
+					for {
+						if se, ok := base.(*ast.SelectorExpr); ok {
+							if fv := SelField(info, se); fv != nil && isClientField(fv) {
+								break
+							}
+							base = ast.Unparen(se.X)
+							continue
+						}
+						break
+					}
+					fv := SelField(info, base)
+					if fv == nil || !isClientField(fv) || fv == cd.fv {
+						continue
+					}
+					if _, isPtrCfg := fv.Type().Underlying().(*types.Pointer); isPtrCfg {
+						continue // c.config.X = ...: the caller's configuration, not client state
+					}
+					behind := g.OnlyViaEdge(n, func(e *Edge) bool { return e == cd.unset })
+					construct := "store to " + p.FieldName(fv) + " only behind the launch gate"
+					if behind {
+						c.R.Hold("R-ONCE", p.Pos(as), f.Name, construct, "reachable only through the once-flag's unset edge", true)
+					} else {
+						c.R.Violate("R-ONCE", p.Pos(as), f.Name, construct,
+							"Start overwrites "+p.FieldName(fv)+" before it tests "+name+": a second Start (or Client/Protocol) call that is refused because the plugin was already launched still resets this state, so Kill no longer cleans up what the first launch created", nil)
+					}
+				}
+			}
 			okAny = true
 			c.R.Hold("R-ONCE", p.Pos(cd.setEdge.From.Ast), f.Name, "launch guarded by "+name,
 				fmt.Sprintf("%s is tested before, and set on every path before, all %d launch sites; a set value returns without launching; nothing resets it", name, len(launch)), true)
